@@ -157,6 +157,24 @@ func gzipBytes(b []byte) []byte {
 	return buf.Bytes()
 }
 
+// gzipMembers compresses b as one gzip member or, in a third of the cases, as 2..4 members
+// (RFC 1952 2.2: a gzip file is a series of members; their contents are concatenated).
+func gzipMembers(r *rand.Rand, b []byte) ([]byte, int) {
+	if r.Intn(3) != 0 || len(b) < 4 {
+		return gzipBytes(b), 1
+	}
+	var out []byte
+	cut, n := 0, 0
+	for m := 1 + r.Intn(3); m > 0 && cut < len(b)-1; m-- {
+		next := cut + 1 + r.Intn(len(b)-cut-1)
+		out = append(out, gzipBytes(b[cut:next])...)
+		cut = next
+		n++
+	}
+	out = append(out, gzipBytes(b[cut:])...)
+	return out, n + 1
+}
+
 // dribbleReader returns 1..k bytes per call and sometimes delivers the last bytes together with io.EOF.
 type dribbleReader struct {
 	data    []byte
@@ -312,7 +330,11 @@ func runC13(w *mon.W) {
 		case 2:
 			how = "fasta.ReadGz of the gzipped text of fasta.Build"
 			path := filepath.Join(tmp, "x.fasta.gz")
-			os.WriteFile(path, gzipBytes(text), 0644)
+			gzb, members := gzipMembers(r, text)
+			if members > 1 {
+				w.Add("multi_member_gzip_files", 1)
+			}
+			os.WriteFile(path, gzb, 0644)
 			got = fasta.ReadGz(path)
 		default:
 			got = fasta.Parse(bytes.NewReader(text))
@@ -344,7 +366,11 @@ func runC13(w *mon.W) {
 			var g2 []fasta.Fasta
 			if gz {
 				path := filepath.Join(tmp, "lay.fasta.gz")
-				os.WriteFile(path, gzipBytes([]byte(lay)), 0644)
+				gzb, members := gzipMembers(r, []byte(lay))
+				if members > 1 {
+					w.Add("multi_member_gzip_files", 1)
+				}
+				os.WriteFile(path, gzb, 0644)
 				g2 = fasta.ReadGz(path)
 			} else {
 				g2 = fasta.Parse(strings.NewReader(lay))
@@ -471,7 +497,8 @@ func runC13(w *mon.W) {
 			fasta.ReadConcurrent(path, ch)
 		} else {
 			path := filepath.Join(tmp, "c.fasta.gz")
-			os.WriteFile(path, gzipBytes(fasta.Build(list)), 0644)
+			gzb, _ := gzipMembers(r, fasta.Build(list))
+			os.WriteFile(path, gzb, 0644)
 			fasta.ReadGzConcurrent(path, ch)
 		}
 		var got []fasta.Fasta
